@@ -12,6 +12,7 @@ import (
 	"fmt"
 	"os"
 	"path/filepath"
+	"runtime"
 	"runtime/debug"
 	"sort"
 	"strconv"
@@ -32,7 +33,12 @@ func main() {
 	variant := flag.String("variant", "", "internal: run the property on one seeded in-memory variant and print obligation statuses as JSON")
 	noEvidence := flag.Bool("no-evidence", false, "do not write the evidence file")
 	flag.Parse()
-	debug.SetGCPercent(400)
+	// Many GC/worker threads faulting pages concurrently is pathologically slow on this
+	// kind of VM (minutes of system time); 8 threads and a moderately lazy GC are the sweet spot.
+	if runtime.GOMAXPROCS(0) > 8 {
+		runtime.GOMAXPROCS(8)
+	}
+	debug.SetGCPercent(200)
 
 	if *manifest {
 		writeManifest(*verif)
